@@ -21,7 +21,7 @@ type wWriter struct {
 func (w *wWriter) Write(p []byte) (int, error) {
 	w.calls++
 	w.arg = string(p)
-	w.lockHeld = verifHeldLocks()
+	w.lockHeld = verifHeldExclusive()
 	w.n = nondetInt()
 	verifAssume(w.n >= 0)
 	verifAssume(w.n <= len(p))
@@ -91,7 +91,7 @@ func H_C13_writer() {
 	}
 	verifAssert(w.calls == 1, "C13.writer.exactly-one-write")
 	verifAssert(w.arg == wantBytes, "C13.writer.writes-configured-format-bytes")
-	verifAssert(w.lockHeld >= 1, "C13.writer.write-under-sink-lock")
+	verifAssert(w.lockHeld >= 1, "C13.writer.write-under-exclusive-sink-lock")
 	if err == nil {
 		verifAssert(w.err == nil && w.n == len(wantBytes), "C13.writer.success-only-after-full-write")
 		verifReach("C13.writer.ok")
